@@ -323,13 +323,13 @@ theorem auth_data_lemma (cr : CryptoOps) (s : Signer) (fuel : Nat) (c : Cfg) (b 
     rw [getAut_mapAut_same _ (fun x => isAut_addBlocks _ _), hc1, hmd]
     rfl
 
-theorem enc_restores_lemma (cr : CryptoOps) (s : Signer) (fuel : Nat) (c : Cfg) (b : Built) (h : c.WF)
+theorem enc_restores_explicit (cr : CryptoOps) (s : Signer) (fuel : Nat) (c : Cfg) (b : Built) (h : c.WF)
     (hb : build cr s fuel c = some b) (he : c.flags = 12) (hl : CryptoLaws cr) (hm : macLenOk c.macLen = true) :
-    ∃ mac c0, mac.length = c.macLen ∧ getAut 2 c.cmds = some c0 ∧
+    ∃ c0, (encMac cr c).length = c.macLen ∧ getAut 2 c.cmds = some c0 ∧
       getAut 2 b.cmds = some { cmd := c0.cmd.addBlocks (blockPairs c.encryptedBlocks),
-                               data := some (macBlob c.version c.nonce mac) } ∧
+                               data := some (macBlob c.version c.nonce (encMac cr c)) } ∧
       ccmDec cr c.dek c.nonce [] c.macLen
-        (blocksData (imagePadded c b.app (some (csfBytes c.version b.cmds))) c.encryptedBlocks ++ mac) = some c.appBin := by
+        (blocksData (imagePadded c b.app (some (csfBytes c.version b.cmds))) c.encryptedBlocks ++ encMac cr c) = some c.appBin := by
   have hf := flags_cases c.flags h.flags
   have hcsf : c.hasCsf = true := by rw [h.csf, he]; rfl
   have hau : isAuth c.flags = true := by rw [hf.1, he]; rfl
@@ -348,7 +348,7 @@ theorem enc_restores_lemma (cr : CryptoOps) (s : Signer) (fuel : Nat) (c : Cfg) 
   have happ' : b.app = encCt cr c := by rw [happ]; simp [hen]
   have hctlen : (encCt cr c).length = c.appBin.length := by
     unfold encCt encOut; rw [List.length_take, hlen, hplain]; omega
-  refine ⟨encMac cr c, c0, ?_, hc0, ?_, ?_⟩
+  refine ⟨c0, ?_, hc0, ?_, ?_⟩
   · unfold encMac encOut; rw [List.length_drop, hlen]; omega
   · rw [signLoop_getAut_ne s c.version fuel 0 _ b.cmds b.attempts 2 (by omega) hloop]
     unfold cmdsSigned
@@ -368,5 +368,15 @@ theorem enc_restores_lemma (cr : CryptoOps) (s : Signer) (fuel : Nat) (c : Cfg) 
     unfold encOut
     rw [hplain]
     exact ccm_inv hl c.dek c.nonce [] c.macLen c.appBin ht
+
+theorem enc_restores_lemma (cr : CryptoOps) (s : Signer) (fuel : Nat) (c : Cfg) (b : Built) (h : c.WF)
+    (hb : build cr s fuel c = some b) (he : c.flags = 12) (hl : CryptoLaws cr) (hm : macLenOk c.macLen = true) :
+    ∃ mac c0, mac.length = c.macLen ∧ getAut 2 c.cmds = some c0 ∧
+      getAut 2 b.cmds = some { cmd := c0.cmd.addBlocks (blockPairs c.encryptedBlocks),
+                               data := some (macBlob c.version c.nonce mac) } ∧
+      ccmDec cr c.dek c.nonce [] c.macLen
+        (blocksData (imagePadded c b.app (some (csfBytes c.version b.cmds))) c.encryptedBlocks ++ mac) = some c.appBin := by
+  obtain ⟨c0, h1, h2, h3, h4⟩ := enc_restores_explicit cr s fuel c b h hb he hl hm
+  exact ⟨encMac cr c, c0, h1, h2, h3, h4⟩
 
 end SpsdkVerif.Hab
